@@ -424,7 +424,48 @@ def find_assign(tree, qualname):
     return vals[0] if len(vals) == 1 else None
 
 
+def _is_logging(stmt):
+    return isinstance(stmt, ast.Expr) and isinstance(stmt.value, ast.Call) and \
+        norm(stmt.value.func).startswith(('log.', 'warnings.warn'))
+
+
+class _DropLogging(ast.NodeTransformer):
+    """logging calls never change behaviour: they are not part of a pinned text"""
+    def generic_visit(self, node):
+        super().generic_visit(node)
+        for field in ('body', 'orelse', 'finalbody'):
+            stmts = getattr(node, field, None)
+            if isinstance(stmts, list) and stmts and isinstance(stmts[0], ast.stmt):
+                kept = [x for x in stmts if not _is_logging(x)]
+                setattr(node, field, kept or [ast.Pass()])
+        return node
+
+
+def snapshot_file(repo, rel):
+    """every function / method of a source file and every simple module- or class-level constant, as pinned text"""
+    import os
+    rel, _, only = rel.partition('#')
+    tree = ast.parse(open(os.path.join(repo, rel)).read())
+    out = {}
+
+    def walk(body, prefix):
+        for x in body:
+            if isinstance(x, (ast.FunctionDef, ast.AsyncFunctionDef)):
+                out[prefix + x.name] = pinned_text(x)
+            elif isinstance(x, ast.ClassDef):
+                out[prefix + x.name + '()'] = 'class %s(%s)' % (x.name, ', '.join(norm(b) for b in x.bases))
+                walk(x.body, prefix + x.name + '.')
+            elif isinstance(x, ast.Assign) and len(x.targets) == 1 and isinstance(x.targets[0], ast.Name):
+                out[prefix + x.targets[0].id + '='] = norm(x.value)
+    walk(tree.body, '')
+    if only:
+        out = {k: v for k, v in out.items() if k.startswith(only)}
+    return out
+
+
 def pinned_text(f):
+    import copy
+    f = _DropLogging().visit(copy.deepcopy(f))
     body = list(f.body)
     if body and isinstance(body[0], ast.Expr) and isinstance(body[0].value, ast.Constant) and \
             isinstance(body[0].value.value, str):
